@@ -33,9 +33,9 @@ its position: "theta<i>" = position i-1), `independentParameters_`, alias listen
 `setConstraint` / `removeConstraint`, and access to the `Parameter` objects behind the object's back
 (`getParameter()` hands out the shared_ptr; the non-const `getFrequencies()` hands out `vProb_`).
 
-Vector arguments: `Simplex::setFrequencies` reads the first `dim_` entries of its argument (and sums all
-of them): longer vectors are defined and modelled (`take dim`), shorter ones are read out of bounds
-(`Err.ub`, never executed).  `OrderedSimplex::setFrequencies` raises on any other size (third repair).
+Vector arguments: both `setFrequencies` raise (`DimensionException`) on a vector of another size than
+the dimension (third and fourth repairs; before, `Simplex::setFrequencies` read the first `dim_`
+entries of a longer vector and read a shorter one out of bounds: `Obj.setFrequenciesBaseUnchecked`).
 
 In-place writes `vProb_[i]`, `valpha_[i]`, `vValues_[i-1]` for all i below the dimension are modelled
 as replacing the vector: the vectors have exactly that size (invariants `OK.probsLen`, `OK.cache`,
@@ -193,6 +193,20 @@ the parameters at :268, so a rejected vector leaves its ratios in the cache. -/
 def Obj.setFrequenciesBase (o : Obj α) (probas : List α) : Obj α × Option Err :=
   if o.dim = 0 then (o, none)
   else if !(sumOk probas) then (o, some .sum)
+  else if probas.length ≠ o.dim then (o, some .sum)    -- `DimensionException` (fourth repair)
+  else
+    let p := probas.take o.dim
+    let o1 := o.cacheWrite p
+    match o1.matchReq (reqOfList (paramsOf o.method p)) with
+    | .ok o2 => (o2, none)
+    | .error e => (o1, some e)
+
+/-- `Simplex::setFrequencies` as it was before the fourth repair (no test of the size; kept for the
+witness theorems): the whole argument is summed, the first `dim_` entries are read — a longer vector
+is accepted, a shorter one that passes the sum test is read out of bounds -/
+def Obj.setFrequenciesBaseUnchecked (o : Obj α) (probas : List α) : Obj α × Option Err :=
+  if o.dim = 0 then (o, none)
+  else if !(sumOk probas) then (o, some .sum)
   else if probas.length < o.dim then (o, some .ub)
   else
     let p := probas.take o.dim
@@ -256,7 +270,7 @@ than the dimension.  A SHORTER one makes the base class read `probas[i]` out of 
 def Obj.oSetFrequenciesUnchecked (o : Obj α) (v : List α) : Obj α × Option Err :=
   if v.length = 0 then (o, none)
   else
-    match o.setFrequenciesBase (orderedToProbs v 1) with
+    match o.setFrequenciesBaseUnchecked (orderedToProbs v 1) with
     | (o', none) => ({ o' with vValues := some v }, none)
     | (o', some e) => (o', some e)
 
